@@ -605,6 +605,28 @@ func main() {
 		return
 	}
 
+	// --- directed: every shape of claimed stream identity on every kind of call, one call at a time ---
+	for kind := 0; kind < spoofKinds; kind++ {
+		for _, ci := range []int{0, 2} { // a v1 token and a v2 token
+			reset()
+			c, o := clients[ci], clients[1]
+			cl, ocl := mkClaim(kind, c, o), mkClaim(kind, o, c)
+			h := gen(c, cl)
+			if strings.HasPrefix(h, "err:") {
+				continue
+			}
+			gen(o, mkClaim(0, o, c))
+			pub(c, cl, h, []string{"as1", "as2", "as3"}, nil, "own")
+			pub(o, ocl, h, []string{"as4"}, nil, "foreign") // the non-owner claims (parts of) the owner's identity
+			unpub(o, ocl, h, nil, "foreign")
+			unpub(c, cl, h, nil, "own")
+			pub(c, cl, h, []string{"as2", "n", "as2", "as4"}, []int{1}, "own")
+			rel(o, ocl, h, nil, false, "foreign")
+			rel(c, cl, h, nil, false, "own")
+			pub(c, cl, h, []string{"as1"}, nil, "released")
+		}
+	}
+
 	// --- directed concurrent scenarios: every window position of request 0 ---
 	type akind struct {
 		op  string
